@@ -35,7 +35,7 @@ for t in sys.argv[1:]:
         shutil.rmtree(dst,ignore_errors=True); os.makedirs(dst)
         shutil.copy(patch,dst+'/patch.diff')
         meta={"benign":True,"summary":"%s: %s"%(ch.get('kind',''),ch.get('what','')),"why_behaviour_preserving":ch.get('why_behaviour_preserving',''),
-              "origin":"sub-agent asked for realistic behaviour-preserving refactorings of a given file set (sixth campaign, aimed at the files the round-6 rules read: LineMap, converters and handlers, Package / Change::apply, the import queries, the body lowering, the string lexer, finish_infer / Collector, the close / watched-files handlers); no knowledge of the properties or of /verif; it confirmed build + unchanged suite",
+              "origin":"sub-agent asked for realistic behaviour-preserving refactorings of a given file set (seventh campaign, aimed at the files the rules of rounds 7 and 8 read: the usage search and its scope, the inferencer's arms and statement loop, LineMap, PackageGraph / Module::is_local, the scope walk and the import queries, the diagnostics publisher and the change handlers, the nesting guard / wrap budget / string lexer, the type display and the clause lowering); no knowledge of the properties or of /verif; it confirmed build + unchanged suite",
               "confirmed":{"how":"all rule modules on a scratch copy of /repo + patch","outcome":"all claimed checks silent" if not alarms else "all claimed checks silent except the documented one"},
               "silent_for":[p for p in CLAIMED if p not in alarms]}
         if ka: meta["known_alarm"]=ka
